@@ -154,6 +154,43 @@ def metric_vs_displacements(d, tol=0.12):
     return result("covariant metric reproduces the scalar products of the displacements between neighbouring grid points", n, fails, worst, tol)
 
 
+def g11_xlow_vs_displacements(d, tol=0.06):
+    """g_11 at the x-faces, INCLUDING the face shared with the inner neighbour: g_11_xlow dx_xlow^2
+    is the squared path centre(i-1) -> face(i) -> centre(i) (two half chords), with the STORED
+    dx_xlow; rows touching an X-point excepted."""
+    fails, n, worst = [], 0, 0.0
+    byid = _byid(d)
+    for r in _regions(d):
+        m = r["mla"]
+        if "g_11" not in m or "xlow" not in m["g_11"] or "xlow" not in m.get("dx", {}):
+            continue
+        R, Z = m["Rxy"], m["Zxy"]
+        g, dx = m["g_11"]["xlow"], m["dx"]["xlow"]
+        nxp, ny = g.shape
+        cols = _interior_mask(r, (1, ny), "centre")[0]
+        for i in range(nxp):
+            if 0 < i < nxp - 1:
+                prev = (R["centre"][i - 1, :], Z["centre"][i - 1, :])
+                nxt = (R["centre"][i, :], Z["centre"][i, :])
+                where = "interior x-face"
+            elif i == 0 and r["connections"].get("inner") is not None:
+                nb = byid[r["connections"]["inner"]]["mla"]
+                prev = (nb["Rxy"]["centre"][-1, :], nb["Zxy"]["centre"][-1, :])
+                nxt = (R["centre"][0, :], Z["centre"][0, :])
+                where = "join with the inner neighbour"
+            else:
+                continue
+            if np.shape(prev[0]) != np.shape(nxt[0]):
+                continue
+            path = np.hypot(R["xlow"][i, :] - prev[0], Z["xlow"][i, :] - prev[1]) + np.hypot(nxt[0] - R["xlow"][i, :], nxt[1] - Z["xlow"][i, :])
+            err = np.where(cols, np.abs(g[i, :] * dx[i, :] ** 2 / path**2 - 1.0), 0.0)
+            n += int(cols.sum())
+            worst = max(worst, float(err.max()))
+            for j in np.argwhere(err > tol)[:2].reshape(-1):
+                fails.append(dict(region=r["name"], where=where, i=int(i), j=int(j), g_11_dx2=float(g[i, j] * dx[i, j] ** 2), measured_path2=float(path[j] ** 2)))
+    return result("g_11 at the x-faces (radial joins included) x dx_xlow^2 = squared centre-to-centre path through the face", n, fails, worst, tol)
+
+
 def hy_ylow_vs_displacements(d, tol=0.05):
     """hy at the y-faces, INCLUDING the faces shared with the neighbouring region: hy_ylow dy is
     the path centre(j-1) -> face(j) -> centre(j) (two half chords), the previous centre being
